@@ -48,7 +48,14 @@ opaque_types!(AssetsCalculatorO, PlaneAssetId, PolicyID, LinearFeeO, DataCostO, 
 clone_eq!(TxProposal);
 
 /// the protocol parameters the batcher reads
-pub struct TransactionBuilderConfig { pub max_tx_size: u32, pub max_value_size: u32, pub rest: LinearFeeO }
+pub struct TransactionBuilderConfig { pub max_tx_size: u32, pub max_value_size: u32, pub fee_algo: LinearFee, pub rest: LinearFeeO }
+#[verifier::external_body] pub struct LinearFee { _p: core::marker::PhantomData<u8> }
+impl LinearFee { pub uninterp spec fn a(&self) -> nat; pub uninterp spec fn b(&self) -> nat; }
+/// what is left for the last output once the fee is paid, never below its minimum (unit batch_calc: dep_remain)
+pub open spec fn dep_remain(d: u64, cost: u64, min_dep: Option<BigNum>) -> u64 {
+    let r = if d >= cost { (d - cost) as u64 } else { 0u64 };
+    match min_dep { Some(m) => if r < m.0 { m.0 } else { r }, None => r }
+}
 pub struct CborCalculator();
 pub open spec fn uint_len(c: u64) -> nat { if c <= 23 { 1 } else if c < 0x100 { 2 } else if c < 0x10000 { 3 } else if c < 0x1_0000_0000 { 5 } else { 9 } }
 impl CborCalculator {
@@ -58,6 +65,12 @@ impl CborCalculator {
     #[verifier::external_body] pub fn get_bare_tx_body_size(body_fields: &HashSet<TxBodyNames>) -> (r: usize) ensures r == Self::body_size(*body_fields), r <= 0xffff { unimplemented!() }
     #[verifier::external_body] pub fn get_struct_size(items_count: u64) -> (r: usize) ensures r == uint_len(items_count) { unimplemented!() }
     #[verifier::external_body] pub fn get_coin_size(coin: &Coin) -> (r: usize) ensures r == uint_len(coin.0) { unimplemented!() }
+    /// the fee fixed point (PROVED in unit batch_calc with exactly this contract)
+    #[verifier::external_body] pub fn estimate_fee(tx_size_without_fee: usize, min_dependable_amount: Option<Coin>, dependable_amount: Option<Coin>, fee_algo: &LinearFee) -> (r: Result<(Coin, usize), JsError>)
+        requires tx_size_without_fee <= u32::MAX
+        ensures r is Ok ==> ({ let f = r->Ok_0.0.0; let sz = r->Ok_0.1;
+            &&& f == sz * fee_algo.a() + fee_algo.b()
+            &&& sz >= tx_size_without_fee + uint_len(f) + (match dependable_amount { Some(d) => uint_len(dep_remain(d.0, f, min_dependable_amount)), None => 0 }) }) { unimplemented!() }
 }
 impl WitnessesCalculator {
     pub uninterp spec fn full(&self) -> nat;
@@ -84,3 +97,6 @@ impl vstd::std_specs::cmp::PartialOrdSpecImpl for BigNum {
     }
 }
 impl PartialOrd for BigNum { #[verifier::external_body] fn partial_cmp(&self, o: &BigNum) -> (r: Option<core::cmp::Ordering>) { unimplemented!() } }
+
+/// std::cmp::max on BigNum (derived Ord of a u64 newtype: the numeric order; R-max)
+#[verifier::external_body] pub fn bn_max_(a: BigNum, b: BigNum) -> (r: BigNum) ensures r.0 == (if a.0 >= b.0 { a.0 } else { b.0 }) { unimplemented!() }
